@@ -1,4 +1,10 @@
 -- Root of the `QV` library: models, proofs and property theorems for dakk/qlasskit.
 import QV.Base.Bits
 import QV.Base.Quirks
+import QV.Base.BExp
 import QV.Model.Types
+import QV.Model.Circuit
+import QV.Gen.Tables
+import QV.Drive.BExpJson
+import QV.Drive.CircJson
+import QV.Props.C09
